@@ -295,6 +295,47 @@ def rule_e(ctx: Ctx, env: EnvA):
                construct=f"{sl.fi.qualname}:{key}:no-depot-reset")
 
 
+def _alts(s, g=()):
+    if isinstance(s, vg.S) and s.op in ("phi", "ifexp"):
+        yield from _alts(s.args[1], g + ((s.args[0].id, True),))
+        yield from _alts(s.args[2], g + ((s.args[0].id, False),))
+    else:
+        yield g, s
+
+
+def _inplace_modified(v) -> bool:
+    return isinstance(v, vg.S) and (v.op == "store" or (v.op == "meth" and v.args[1].endswith("_") and not v.args[1].startswith("__")))
+
+
+def rule_f(ctx: Ctx, env: EnvA):
+    """C01.f no two state cells of the reset / step result share one tensor object that was
+    modified in place after the sharing started (e.g. `action_mask = available` followed by
+    `action_mask[..., 1:] = False` also wipes `available`): the state the mask is later
+    computed from would be corrupted on that configuration path."""
+    for meth in ("_reset", "_step"):
+        sl = env.slot(meth)
+        if sl is None or sl.td is None:
+            continue
+        cells = {k: v for k, v in sl.td.cells.items() if isinstance(v, vg.S) and not (v.op == "cell0")}
+        per = {}
+        for k, v in cells.items():
+            for g, a in _alts(v):
+                per.setdefault((g, a.id), []).append((k, a))
+        bad = []
+        for (g, _), lst in per.items():
+            keys = sorted({k for k, _ in lst})
+            if len(keys) >= 2 and _inplace_modified(lst[0][1]):
+                bad.append((keys, lst[0][1]))
+        inst = f"{env.name}.{meth}:no-aliased-inplace-state"
+        if bad:
+            keys, node = bad[0]
+            ctx.ob("C01.f", inst, False, sl.where,
+                   f"state cells {keys} are the SAME tensor object and it is modified in place ({vg.show(node, 3)}): writing one of them through an index also changes the other",
+                   construct=f"{sl.fi.qualname}:aliased-inplace:{','.join(keys)}")
+        else:
+            ctx.ob("C01.f", inst, True, sl.where, f"{len(cells)} written cells, none shares an in-place modified tensor with another")
+
+
 def run(ctx: Ctx):
     for cname, (path, family) in T.ENVS.items():
         env = EnvA(ctx.repo, path, cname)
@@ -304,6 +345,7 @@ def run(ctx: Ctx):
         check_literals(ctx, "C01", env, sl, root, T.MASK[cname], "mask", "looser")
         rule_c(ctx, env)
         rule_e(ctx, env)
+        rule_f(ctx, env)
 
 
 def run_thorough(ctx: Ctx):
